@@ -1,0 +1,38 @@
+//go:build verif
+
+package board
+
+import . "github.com/paulsonkoly/chess-3/chess"
+
+// VerifSnapshot is a deep copy of every attribute of a Board, for the
+// deterministic-simulation harness (build tag verif).
+type VerifSnapshot struct {
+	SquaresToPiece [64]Piece
+	Pieces         [7]BitBoard
+	Colors         [2]BitBoard
+	Hashes         []Hash
+	FullMoves      int
+	STM            Color
+	EnPassant      Square
+	Castles        Castles
+	FiftyCnt       Depth
+}
+
+// VerifSnapshot returns a deep copy of b's state.
+func (b *Board) VerifSnapshot() VerifSnapshot {
+	return VerifSnapshot{
+		SquaresToPiece: b.SquaresToPiece,
+		Pieces:         b.Pieces,
+		Colors:         b.Colors,
+		Hashes:         append([]Hash(nil), b.hashes...),
+		FullMoves:      b.fullMoves,
+		STM:            b.STM,
+		EnPassant:      b.EnPassant,
+		Castles:        b.Castles,
+		FiftyCnt:       b.FiftyCnt,
+	}
+}
+
+// VerifScratchHash recomputes the Zobrist hash of the current position from
+// scratch.
+func (b *Board) VerifScratchHash() Hash { return b.calculateHash() }
